@@ -228,8 +228,38 @@ def g_counters(tier):
   return out
 
 
+def g_slot_complete(tier):
+  """(W) collision_core.write_contact defines EVERY field of the contact slot it allocates, including every column of
+  efc_address (-1 = no row yet): a recycled slot carries nothing of the contact that used it before"""
+  import z3
+
+  from wpv.contracts import Run
+  from wpv.sym import ArrRef, lift, zb
+
+  key = "collision_core:write_contact"
+  R = Run(key)
+  ex = R.ex
+  i = R.var("i")
+  allocs = [a for a in ex.st.log if a.kind == "atomic" and a.op == "add" and a.arr is R.params["nacon_out"] and isinstance(a.value, tuple)]
+  out = []
+  if len(allocs) != 1:
+    return [Result(oid="write_contact#one_allocation", status="violated", kind="post", func=key, backend="analysis", meta={"function": key, "goal": "write_contact allocates exactly one slot", "found": len(allocs)})]
+  cid = allocs[0].value[1]
+  written = z3.And(zb(allocs[0].guard), cid < R.params["naconmax_in"], cid >= 0)
+  ea = R.params["contact_efc_address_out"]
+  post = ex.st.arrs[ea.aid]((cid, i))
+  out.append(R.obligation("write_contact#efc_address_all_columns_cleared", z3.Implies(z3.And(written, i >= 0, i < ex.shape_sym(ea, 1)), post == -1), meta={"goal": "every column of contact.efc_address of the allocated slot is set to -1 (no stale row address of the slot's previous contact survives)"}))
+  fields = [n for n, v in R.params.items() if isinstance(v, ArrRef) and n.startswith("contact_") and n.endswith("_out") and n != "contact_efc_address_out"]
+  for n in fields:
+    ws = [a for a in ex.st.log if a.kind == "w" and a.arr is R.params[n] and a.idx and lift(a.idx[0]).eq(cid)]
+    g = z3.Or(*[zb(a.guard) for a in ws]) if ws else z3.BoolVal(False)
+    out.append(R.obligation(f"write_contact#slot_field_written.{n[8:-4]}", z3.Implies(written, g), meta={"goal": f"contact.{n[8:-4]} of the allocated slot is written whenever the slot is"}))
+  out.append(Result(oid="write_contact#fields_found", status="discharged" if len(fields) >= 12 else "crash", reason="contact output fields not found", kind="post", func=key, backend="analysis", meta={"function": key, "goal": "the contact fields of write_contact were enumerated", "fields": len(fields)}))
+  return out
+
+
 def groups(tier):
-  gs = [("counters", g_counters)]
+  gs = [("counters", g_counters), ("slot_complete", g_slot_complete)]
   for integ in ("EULER", "IMPLICIT", "RK4"):
     gs.append((f"acc[{integ}]", g_acc(integ)))
   gs.append(("stale[forward]", g_stale("forward:forward", "EULER")))
